@@ -119,6 +119,7 @@ func decimalWrites(cd *codec, rv *Result, buf ssa.Value) []decWrite {
 			if len(parts) == 2 {
 				arg = parts[1]
 			}
+			s, arg = starWidth(s, arg)
 			out = append(out, decWrite{In: c, Kind: "printf", Format: s, Arg: arg})
 		}
 	}
@@ -168,6 +169,14 @@ func definitelyWritten(rv *Result, fn *ssa.Function, buf ssa.Value, writes map[s
 			}
 			if u, isNot := iff.Cond.(*ssa.UnOp); isNot && u.Op == token.NOT && p.Succs[1] == s && inG(o, u.X) {
 				ns = &state{written: true}
+			}
+			// along the false edge of a test of c, c is false, so "c => written" holds vacuously
+			if p.Succs[1] == s && !ns.written && !ns.all {
+				g := map[ssa.Value]bool{iff.Cond: true}
+				for k := range ns.g {
+					g[k] = true
+				}
+				ns = &state{written: false, g: g}
 			}
 		}
 		return ns
@@ -529,4 +538,18 @@ func runC11(a *A) {
 	a.exhaustive = true
 	a.Extra["specialisations"] = len(specs)
 	a.Extra["distinct_cases"] = counts["specs"]
+}
+
+
+// starWidth rewrites a "%0*d" verb whose width argument is a constant into the fixed-width verb ("%0*d", "4,x" -> "%04d", "x").
+func starWidth(format, args string) (string, string) {
+	if !strings.Contains(format, "*") {
+		return format, args
+	}
+	first, rest, _ := strings.Cut(args, ",")
+	var k int64
+	if _, err := fmt.Sscanf(first, "%d", &k); err != nil || fmt.Sprint(k) != first {
+		return format, args
+	}
+	return strings.Replace(format, "*", first, 1), rest
 }
